@@ -360,8 +360,8 @@ func (m *model) entry(i int, e Entry, res result) flight {
 
 func (m *model) host(h HostEdge, fl flight) hostExp {
 	if fl.Kind == fNormal && fl.IntrPending {
-		if h == hRun {
-			// global code continues after the native returned: interrupted at the next instruction
+		if h == hRun || h == hTryForOf {
+			// script code (the global code, resp. the iterator's next()) continues after the native returned: interrupted at the next instruction
 			fl = flight{Kind: fUncatchable, Err: &ETerm{Kind: ekIntr}}
 		} else {
 			// no script instruction runs any more; Interrupt's doc: the flag stays set, use ClearInterrupt
